@@ -7,13 +7,18 @@ controller over a pipe that they are *about to* run ("gate") and then wait for "
 controller thereby decides the interleaving of the system calls of all participants, including
 the window between `os.open(O_EXCL)` and the initialising `os.write` of `LockFile.__init__`.
 
-Protocol (controller -> worker):  ("call", op, args)  start an operation;  ("go",)  pass the
-gate the worker is parked at;  ("quit",).
-Worker -> controller:  ("gate", name, obs)  parked before system call `name`;
-("done", op, result, obs)  the operation finished (result is a value or {"exc": "..."}).
+A process may host several users (lock objects on the process's one LockFile, as the tasks of a
+program that talks to several terminals): each user runs in a thread of its own inside the
+worker, so several of them can be parked at a gate; they share the process's POSIX locks.
+
+Protocol (controller -> worker):  ("call", uid, op, args)  start an operation of user uid
+("proc" for the process itself);  ("go", uid)  pass the gate uid is parked at;  ("abort", uid);
+("quit",).
+Worker -> controller:  ("gate", uid, name, obs)  parked before system call `name`;
+("done", uid, op, result, obs)  the operation finished (result is a value or {"exc": "..."}).
 `obs` lists what the system calls since the last message returned.
 
-Operations: init(filename, lo, hi, no)  -> LockFile(...) and the lock via
+Operations: init(filename, lo, hi)  -> LockFile(...);  mklock(no) -> the user's lock via
 ParallelEtherCat.get_mbx_lock;  aenter  -> drives lock.__aenter__() (every `await sleep(0)` of a
 failed attempt is followed by the next attempt);  next -> lock.next_counter();  aexit;  close.
 """
@@ -32,17 +37,30 @@ class _Abort(BaseException):
 
 
 def _worker(conn, repo):
+    """one OS process; every user (lock object) of the process runs its operations in a thread
+    of its own, so that several users can be parked at a gate at the same time (they share the
+    process's POSIX locks and its LockFile, like the tasks of a real program).  The controller
+    lets exactly one thread run at a time."""
     import fcntl as real_fcntl
+    import queue
+    import threading
     if repo not in sys.path:
         sys.path.insert(0, repo)
     import ebpfcat.lock as L
-    obs = []
+    tl = threading.local()       # uid, q (commands for this thread), obs
+    send_lock = threading.Lock()
     fds = []                     # every descriptor the code under test opened (closed on "close")
+    state = {"locks": {}}
+    threads = {}
+
+    def send(msg):
+        with send_lock:
+            conn.send(msg)
 
     def gate(name):
-        conn.send(("gate", name, list(obs)))
-        del obs[:]
-        msg = conn.recv()
+        send(("gate", tl.uid, name, list(tl.obs)))
+        del tl.obs[:]
+        msg = tl.q.get()
         if msg[0] == "abort":
             raise _Abort()
         if msg[0] != "go":
@@ -59,33 +77,33 @@ def _worker(conn, repo):
             try:
                 fd = os.open(path, flags, *a)
             except FileExistsError:
-                obs.append(dict(call="open_excl", res="exists"))
+                tl.obs.append(dict(call="open_excl", res="exists"))
                 raise
-            obs.append(dict(call="open_excl" if excl else "open", res="ok"))
+            tl.obs.append(dict(call="open_excl" if excl else "open", res="ok"))
             fds.append(fd)
             return fd
 
         def write(self, fd, data):
             gate("init")
             n = os.write(fd, data)
-            obs.append(dict(call="write", n=n, len=len(data)))
+            tl.obs.append(dict(call="write", n=n, len=len(data)))
             return n
 
         def ftruncate(self, fd, n):
             gate("init")
             os.ftruncate(fd, n)
-            obs.append(dict(call="ftruncate", n=n))
+            tl.obs.append(dict(call="ftruncate", n=n))
 
         def pread(self, fd, n, off):
             gate("read")
             r = os.pread(fd, n, off)
-            obs.append(dict(call="pread", off=off, got=list(r)))
+            tl.obs.append(dict(call="pread", off=off, got=list(r)))
             return r
 
         def pwrite(self, fd, data, off):
             gate("write")
             n = os.pwrite(fd, data, off)
-            obs.append(dict(call="pwrite", off=off, data=list(data)))
+            tl.obs.append(dict(call="pwrite", off=off, data=list(data)))
             return n
 
     class FcntlProxy:
@@ -98,14 +116,13 @@ def _worker(conn, repo):
             try:
                 r = real_fcntl.lockf(fd, cmd, *a)
             except OSError as e:
-                obs.append(dict(call="lockf", res="fail", args=list(a), err=type(e).__name__))
+                tl.obs.append(dict(call="lockf", res="fail", args=list(a), err=type(e).__name__))
                 raise
-            obs.append(dict(call="unlockf" if unlock else "lockf", res="ok", args=list(a)))
+            tl.obs.append(dict(call="unlockf" if unlock else "lockf", res="ok", args=list(a)))
             return r
 
     L.os = OsProxy()
     L.fcntl = FcntlProxy()
-    state = {}
 
     def drive(coro):
         while True:
@@ -114,15 +131,28 @@ def _worker(conn, repo):
             except StopIteration as s:
                 return s.value
 
-    def call(op, args):
-        if op == "init":
-            filename, lo, hi, no = args
+    def call(uid, op, args):
+        if op == "init":                     # the process's LockFile (shared by its users)
+            filename, lo, hi = args
             state["lf"] = L.LockFile(filename, lo, hi)
+            return {}
+        if op == "mklock":                   # the user's lock object, as ParallelEtherCat makes it
             from ebpfcat.ebpfcat import ParallelEtherCat
-            state["lock"] = ParallelEtherCat.get_mbx_lock(
-                types.SimpleNamespace(mbx_lock_file=state["lf"]), no)
-            return dict(cls=type(state["lock"]).__name__, byte=state["lock"].no)
-        lock = state.get("lock")
+            lock = ParallelEtherCat.get_mbx_lock(
+                types.SimpleNamespace(mbx_lock_file=state["lf"]), args[0])
+            state["locks"][uid] = lock
+            return dict(cls=type(lock).__name__, byte=lock.no)
+        if op == "close":
+            state.pop("lf", None)
+            state["locks"].clear()
+            for fd in fds:               # also drops every lock this process holds on the file
+                try:
+                    os.close(fd)
+                except OSError:
+                    pass
+            del fds[:]
+            return {}
+        lock = state["locks"][uid]
         if op == "aenter":
             drive(lock.__aenter__())
             return dict(counter=lock.counter)
@@ -140,38 +170,47 @@ def _worker(conn, repo):
                 exc = None
             drive(lock.__aexit__(type(exc) if exc else None, exc, None))
             return dict(counter=lock.counter)
-        if op == "close":
-            lf = state.pop("lf", None)
-            state.pop("lock", None)
-            for fd in fds:               # also drops every lock this process holds on the file
-                try:
-                    os.close(fd)
-                except OSError:
-                    pass
-            del fds[:]
-            return {}
         raise ValueError(op)
+
+    def thread_main(uid, q):
+        tl.uid, tl.q, tl.obs = uid, q, []
+        while True:
+            msg = q.get()
+            if msg[0] == "quit":
+                return
+            if msg[0] != "call":
+                continue
+            try:
+                res = call(uid, msg[1], msg[2])
+            except _Abort:
+                res = dict(exc="aborted")
+            except SystemExit:
+                return
+            except BaseException as e:
+                res = dict(exc=f"{type(e).__name__}: {e}"[:200])
+            send(("done", uid, msg[1], res, list(tl.obs)))
+            del tl.obs[:]
 
     while True:
         try:
             msg = conn.recv()
         except EOFError:
-            return
+            msg = ("quit",)
         if msg[0] == "quit":
+            for _, q in threads.values():
+                q.put(("quit",))
             return
-        if msg[0] != "call":
-            continue
-        try:
-            res = call(msg[1], msg[2])
-        except SystemExit:
-            return
-        except BaseException as e:
-            res = dict(exc=f"{type(e).__name__}: {e}"[:200])
-        conn.send(("done", msg[1], res, list(obs)))
-        del obs[:]
+        uid = msg[1]
+        if uid not in threads:
+            q = queue.Queue()
+            t = threading.Thread(target=thread_main, args=(uid, q), daemon=True)
+            threads[uid] = (t, q)
+            t.start()
+        threads[uid][1].put((msg[0],) + tuple(msg[2:]))
 
 
 class Worker:
+    """controller side of one worker process; `parked[uid]` is the gate user uid waits at"""
     def __init__(self, repo, timeout=10.0):
         ctx = multiprocessing.get_context("fork")
         self.conn, child = ctx.Pipe()
@@ -179,31 +218,37 @@ class Worker:
         self.proc.start()
         child.close()
         self.timeout = timeout
-        self.parked = None          # name of the gate the worker is parked at
+        self.parked = {}
         self.last = None
 
-    def _recv(self):
+    def _recv(self, uid):
         if not self.conn.poll(self.timeout):
             raise Hang("worker did not answer")
         msg = self.conn.recv()
-        self.parked = msg[1] if msg[0] == "gate" else None
+        if msg[1] != uid:
+            raise Hang(f"answer from {msg[1]!r} while waiting for {uid!r}")
+        if msg[0] == "gate":
+            self.parked[uid] = msg[2]
+        else:
+            self.parked.pop(uid, None)
         self.last = msg
-        return msg
+        # uniform view for the caller: ("gate", name, obs) / ("done", op, result, obs)
+        return (msg[0],) + tuple(msg[2:])
 
-    def call(self, op, *args):
-        self.conn.send(("call", op, args))
-        return self._recv()
+    def call(self, uid, op, *args):
+        self.conn.send(("call", uid, op, args))
+        return self._recv(uid)
 
-    def go(self):
-        self.conn.send(("go",))
-        return self._recv()
+    def go(self, uid):
+        self.conn.send(("go", uid))
+        return self._recv(uid)
 
     def reset(self):
-        """abort whatever the worker is parked in and close its lock file"""
-        if self.parked is not None:
-            self.conn.send(("abort",))
-            self._recv()
-        self.call("close")
+        """abort whatever the users are parked in and close the lock file"""
+        for uid in list(self.parked):
+            self.conn.send(("abort", uid))
+            self._recv(uid)
+        self.call("proc", "close")
 
     def stop(self):
         try:
@@ -225,38 +270,42 @@ def file_bytes(path):
         return None
 
 
-def replay(repo, path, schedule, bytes_of, nmsgs, lo=10, n=2, pool=None):
-    """replay one schedule ([{p, a}...]) on real LockFile / ParallelMailboxLock objects in one
-    worker process per participant; returns the list of observed events.
-    pool: dict reused between calls (worker processes are kept and reset)"""
+def replay(repo, path, schedule, layout, nmsgs, lo=10, n=2, pool=None):
+    """replay one schedule ([{p, u, a, mode}...]: process, user, step, how the hold ends) on real
+    LockFile / ParallelMailboxLock objects - one worker process per process of the layout, one
+    lock object (and thread) per user; returns the list of observed events.
+    layout: {user: (process, byte)}.  pool: dict reused between calls (workers kept and reset)"""
     workers = pool if pool is not None else {}
     ev = []
-    modes = {}                    # how the current hold of each participant will end
+    modes = {}                    # how the current hold of each user will end
+    procs = sorted({q for q, _ in layout.values()})
     try:
-        for p in sorted({s["p"] for s in schedule}):
-            if p not in workers:
-                workers[p] = Worker(repo)
-            w = workers[p]
-            w.call("init", path, lo, lo + n, lo + bytes_of[p])      # parks before open(O_EXCL)
+        for q in procs:
+            if q not in workers:
+                workers[q] = Worker(repo)
+            workers[q].call("proc", "init", path, lo, lo + n)      # parks before open(O_EXCL)
         for s in schedule:
-            p, a = s["p"], s["a"]
-            w = workers[p]
+            q, a = s["p"], s["a"]
+            uid = s.get("u") or "proc"
+            w = workers[q]
             if a == "read":
-                modes[p] = s.get("mode") or "ok"
-            if a == "write" and w.parked == "unlock":
+                modes[uid] = s.get("mode") or "ok"
+            mode = modes.get(uid, "") if a in ("write", "unlock") else (s.get("mode") or "")
+            here = w.parked.get(uid)
+            if a == "write" and here == "unlock":
                 # the code ends the hold without storing the counter: the step happened without
                 # effect; whether that is acceptable is for the specification to say
-                ev.append(dict(p=p, a="write", exc="", mode=modes.get(p, ""), skipped=True, obs=[],
+                ev.append(dict(p=q, u=uid, a="write", exc="", mode=mode, skipped=True, obs=[],
                                file=file_bytes(path) or []))
                 continue
-            if w.parked != a:
-                ev.append(dict(p=p, a=a, res="not-at-step", at=str(w.parked), last=repr(w.last)[:200],
-                               exc=f"the code is about to do {w.parked!r} instead of {a!r}",
-                               mode=modes.get(p, ""),
+            if here != a:
+                ev.append(dict(p=q, u=uid, a=a, res="not-at-step", at=str(here),
+                               last=repr(w.last)[:200], mode=mode,
+                               exc=f"the code is about to do {here!r} instead of {a!r}",
                                file=file_bytes(path) or []))
                 break
-            msg = w.go()
-            e = dict(p=p, a=a, obs=msg[-1], exc="", mode=modes.get(p, "") if a in ("write", "unlock") else s.get("mode", ""))
+            msg = w.go(uid)
+            e = dict(p=q, u=uid, a=a, obs=msg[-1], exc="", mode=mode)
             if msg[0] == "done" and "exc" in msg[2]:
                 e["exc"] = msg[2]["exc"]
             if a == "open":
@@ -274,22 +323,25 @@ def replay(repo, path, schedule, bytes_of, nmsgs, lo=10, n=2, pool=None):
                 break
             if msg[0] == "done":                         # operation over: start the next one
                 if msg[1] == "init":
-                    w.call("aenter")                     # parks before the first lockf
+                    for u, (q2, b) in sorted(layout.items()):
+                        if q2 == q:
+                            w.call(u, "mklock", lo + b)
+                            w.call(u, "aenter")          # parks before the first lockf
                 elif msg[1] == "aenter":
                     for _ in range(nmsgs):
-                        m2 = w.call("next")
-                        ev.append(dict(p=p, a="next", value=m2[2].get("value", -1),
+                        m2 = w.call(uid, "next")
+                        ev.append(dict(p=q, u=uid, a="next", value=m2[2].get("value", -1), mode="",
                                        exc=m2[2].get("exc", ""), file=file_bytes(path) or [], obs=[]))
-                    w.call("aexit", modes.get(p, "ok"))  # parks before pwrite
+                    w.call(uid, "aexit", modes.get(uid, "ok"))  # parks before pwrite
                 elif msg[1] == "aexit":
-                    w.call("aenter")
+                    w.call(uid, "aenter")
     except Hang as h:
-        ev.append(dict(p="?", a="hang", exc=str(h), file=file_bytes(path) or []))
+        ev.append(dict(p="?", u="?", a="hang", exc=str(h), mode="", file=file_bytes(path) or []))
         for w in workers.values():
             w.stop()
         workers.clear()
     finally:
-        for p, w in list(workers.items()):
+        for q, w in list(workers.items()):
             try:
                 if pool is None:
                     w.stop()
@@ -297,7 +349,7 @@ def replay(repo, path, schedule, bytes_of, nmsgs, lo=10, n=2, pool=None):
                     w.reset()
             except (Hang, OSError, EOFError):
                 w.stop()
-                workers.pop(p, None)
+                workers.pop(q, None)
         try:
             os.remove(path)
         except FileNotFoundError:
